@@ -1200,7 +1200,12 @@ class LiteralData(Packet):
     @property
     def contents(self):
         if self.format == 't':
-            return self._contents.decode('latin-1')
+            # text is stored as UTF-8 by PGPMessage.new; text from other producers that is not UTF-8 is read as Latin-1
+            try:
+                return self._contents.decode('utf-8')
+
+            except UnicodeDecodeError:
+                return self._contents.decode('latin-1')
 
         if self.format == 'u':
             return self._contents.decode('utf-8')
